@@ -181,6 +181,8 @@ var dbgSources = []string{
 	"max(xs) - min(ys) + abs(0 - a)",
 	// terms evaluated more than once (host lazy functions that force an
 	// operand again): each value gets a column of its own
+	// a short value of many bytes with other values close to its right on the same line
+	"z.len() + a", "z + z == s || c", "[z: a][z] + b",
 	"twice(a)+-b", "thrice(a)+-b", "twice(a) + twice(b)", "thrice(xs[i])-a", "lz(c, twice(a), b) + a", "twice(twice(a))", "thrice(a+b)*b",
 	// values that render on several lines (an object whose field name contains a line break), with other values to their left
 	"a > 1 ? ml : ml", "len([ml, ml]) + a", "if(c, ml, ml).v + b", "[ml][i].v * a + b",
@@ -212,9 +214,9 @@ func H19_debug() {
 	ot := ObjT([]string{"f", "g"}, []*types.Type{tNum, og})
 	ft := types.Fun("f", []*types.Type{tNum, tNum}, tNum)
 	mlt := ObjT([]string{"line\nbreak", "v"}, []*types.Type{tStr, tNum})
-	tys := map[string]*types.Type{"a": tNum, "b": tNum, "c": tBool, "d": tBool, "i": tNum, "s": tStr, "名前": tStr,
+	tys := map[string]*types.Type{"a": tNum, "b": tNum, "c": tBool, "d": tBool, "i": tNum, "s": tStr, "z": tStr, "名前": tStr,
 		"xs": tLN, "ys": tLN, "m": tMSN, "o": ot, "fs": types.List(ft), "ml": mlt}
-	names := []string{"a", "b", "c", "d", "i", "s", "名前", "xs", "ys", "m", "o", "fs", "ml"}
+	names := []string{"a", "b", "c", "d", "i", "s", "z", "名前", "xs", "ys", "m", "o", "fs", "ml"}
 	nums := []float64{3, -12.5, 100000}
 	a, b := nums[sv.Choice("a", 3)], nums[sv.Choice("b", 3)]
 	bv := func(name string) *val.Val {
@@ -241,7 +243,7 @@ func H19_debug() {
 	mlv := val.Obj(mlt.Obj()).Obj()
 	mlv.V[0], mlv.V[1] = val.Str("x"), val.Num(9)
 	vals := map[string]*val.Val{"ml": mlv.Vl(), "a": val.Num(a), "b": val.Num(b), "c": bv("c"), "d": bv("d"), "i": val.Num(float64(sv.Choice("i", 2))),
-		"s": val.Str("héllo"), "名前": val.Str("x\ty"), "xs": mkList(1, 2), "ys": mkList(10, 20.25), "m": m.Vl(), "o": oobj.Vl(), "fs": fs.Vl()}
+		"s": val.Str("héllo"), "z": val.Str("变量"), "名前": val.Str("x\ty"), "xs": mkList(1, 2), "ys": mkList(10, 20.25), "m": m.Vl(), "o": oobj.Vl(), "fs": fs.Vl()}
 	mkEnv := func() *val.Env {
 		ve := val.NewEnv()
 		for _, n := range names {
@@ -308,6 +310,17 @@ func H19_debug() {
 					shown = shown && strings.Contains(text, ln)
 				}
 				sv.Assert("every-recorded-value-is-shown", shown)
+				// ... and its first line starts under the column of its own term
+				first := []rune(strings.Split(en.V.String(), "\n")[0])
+				under := false
+				for _, ln := range lines[1:] {
+					rs := []rune(ln)
+					at := en.Col - 1
+					if at+len(first) <= len(rs) && string(rs[at:at+len(first)]) == string(first) {
+						under = true
+					}
+				}
+				sv.Assert("every-recorded-value-starts-under-its-own-term", under)
 			}
 		}
 	}
